@@ -64,6 +64,37 @@ _fam('dttz0530', 'datetime64[us, +05:30]', 'date',
      [None, T0 + FRAC['us'], T1, T2])
 _fam('dateobj', 'object', 'date', [None, '1999-12-31', '2000-01-01'],
      'object column of datetime.date')
+# tz-aware families over an offset alphabet covering every sign x {whole
+# hour, half hour, 45 min, < 1 h} class, plus two named zones whose values
+# straddle a daylight-saving transition (St John's: -03:30 / -02:30, London:
+# +00:00 / +01:00), at us and ns resolution.  Cells are UTC instants.
+TZ_OFFSETS = [('UTC', 'UTC', 0), ('p0530', '+05:30', 330),
+              ('p0545', '+05:45', 345), ('m0330', '-03:30', -210),
+              ('m0030', '-00:30', -30), ('m0900', '-09:00', -540),
+              ('p1400', '+14:00', 840)]
+TZ_NAMED = [('stjohns', 'America/St_Johns'), ('london', 'Europe/London')]
+TZ_FAMILIES = []
+for _u in ('us', 'ns'):
+    for (_lab, _tz, _min) in TZ_OFFSETS:
+        _n = 'tz%s_%s' % (_u, _lab)
+        _fam(_n, 'datetime64[%s, %s]' % (_u, _tz), 'date',
+             [None, T0 + FRAC[_u], T1, T2])
+        FAMILIES[_n].update(tz=_tz, unit=_u, tzmin=_min,
+                            tzclass=('0' if _min == 0 else
+                                     ('+' if _min > 0 else '-')
+                                     + ('whole' if _min % 60 == 0
+                                        else 'frac')))
+        TZ_FAMILIES.append(_n)
+    for (_lab, _tz) in TZ_NAMED:
+        _n = 'tz%s_%s' % (_u, _lab)
+        _fam(_n, 'datetime64[%s, %s]' % (_u, _tz), 'date',
+             [None, T2, '2000-04-02T05:00:00' + FRAC[_u],
+              '2000-06-01T00:00:00'])
+        FAMILIES[_n].update(tz=_tz, unit=_u, tzmin=0, tzclass='dst')
+        TZ_FAMILIES.append(_n)
+FAMILIES['dttzutc'].update(tz='UTC', unit='us', tzmin=0, tzclass='0')
+FAMILIES['dttz0530'].update(tz='+05:30', unit='us', tzmin=330,
+                            tzclass='+frac')
 # families outside the DESIGN table but inside the properties' type list,
 # used by the thorough tiers
 _fam('u64x', 'uint64', 'int', [0, 2 ** 63, 2 ** 64 - 1], 'extreme unsigned')
@@ -71,6 +102,10 @@ _fam('i8', 'int8', 'int', [-128, 0, 127])
 _fam('f32', 'float32', 'real', [None, -1.5, 0.0, 2.5])
 _fam('catx', 'category', 'string', [None, 'a', 'B1'],
      'categorical that declares categories a, B1, zz9 whether used or not')
+# object / categorical columns of structured strings for the rex pipelines
+# (built by rex_structured_columns)
+_fam('rexs', 'object', 'string', [], 'structured strings')
+_fam('rexscat', 'category', 'string', [], 'structured strings, categorical')
 # object column of strings, 0..25 distinct values (built by manycat_columns)
 _fam('manycat', 'object', 'string', [], 'n distinct strings')
 
@@ -101,6 +136,77 @@ def manycat_columns(name='a', ns=MANYCAT_NS):
             for null in (0, 1):
                 yield {'name': name, 'fam': 'manycat',
                        'v': manycat_values(n, repeat, null)}
+
+
+# --------------------------------------------------- structured strings (rex)
+
+# every character rexpy places or escapes specially in a character class or
+# in a fixed fragment
+REX_PUNCT = ['\\', ']', '[', '^', '-', '/', '.', ':', '*', '+', '?', '$', '|',
+             '(', ')', '{', '}', '"', "'", ' ']
+
+
+def rex_structured_values(thorough=False):
+    """Lists of strings for the rex-on pipelines.  Values are prefix + P +
+    suffix with P over every ordered pair (quick: unordered triple, thorough:
+    ordered triple) of distinct characters of REX_PUNCT, so that every
+    special character stands in a VARYING punctuation position next to every
+    other one; the same with a fixed ':' in front (a varying run of two);
+    the bare characters; punctuation positions with 4..7 distinct characters
+    (rexpy: max_punc_in_group = 5); varying letters / digits / mixed;
+    optional tails and length ranges either side of MAX_VRLE_RANGE = 2;
+    9..13 distinct strings in one position (max_strings_in_group = 10);
+    98..101 fragments (MAX_GROUPS = 99); 99..101 distinct values (Size.do_all
+    = 100, beyond which rexpy samples); alignment shapes."""
+    P = REX_PUNCT
+    pre, suf = 'C', 'tmp'
+    for p1, p2 in itertools.permutations(P, 2):
+        yield [pre + p1 + suf, pre + p2 + suf]
+    for p1, p2 in itertools.permutations(P, 2):
+        yield [pre + ':' + p1 + suf, pre + ':' + p2 + suf]
+    triples = itertools.permutations(P, 3) if thorough \
+        else itertools.combinations(P, 3)
+    for t in triples:
+        yield [pre + p + suf for p in t]
+    for p1, p2 in itertools.combinations(P, 2):
+        yield [p1, p2]
+    for k in (4, 5, 6, 7):
+        for i in range(len(P)):
+            yield ['a' + P[(i + j) % len(P)] + 'b' for j in range(k)]
+    for vals in [
+            ['ab-x', 'cd-x'], ['12-x', '34-x'], ['a1-x', 'b2-x'],
+            ['ab-x', '12-x'], ['aB-x', 'Cd-x'], ['\u00e9-x', 'a-x'],
+            ['ab_x', 'cd_x'], ['a_b', 'a-b'], ['A1', 'b2', 'C3'],
+            ['ab', 'ab-x'], ['ab-x', 'ab-x-y'], ['a', 'ab', 'abc'],
+            ['a', 'abc'], ['a', 'abcd'], ['1', '123'], ['1', '1234'],
+            ['1', '12', '123', '1234'], ['', 'a-b'], ['a-b', ''],
+            ['a-b', 'c-d-e'], ['1.2.3', '1.2'], ['x_y', 'x_y_z'],
+            [' a ', 'b'], ['a b', 'a  b', 'a    b'],
+            ['a@b.c', 'dd@ee.ff'], ['EH1 1AA', 'G12 8QQ', 'SW1A 2AA'],
+            ['(0131) 123', '(020) 4567'], ['C:\\tmp', 'C:/tmp'],
+            ['a\\b', 'a/b'], ['\\\\srv\\x', '//srv/x'],
+            ['a\nb', 'a-b'], ['a\tb', 'a b'], ['"a"', "'a'"],
+            ['[a]', '(a)', '{a}'], ['a^b', 'a-b', 'a]b'],
+            ['$1', '$22', '$333'], ['1+1', '2*2', '3?3'],
+            ['a|b', 'a||b'], ['^a$', '^b$']]:
+        yield vals
+    for n in (9, 10, 11, 12, 13):
+        yield ['id-%02d' % (7 * i + 3) for i in range(n)]
+        yield ['%s%s/x' % ('abcdefghijklm'[i], 'nopqrstuvwxyz'[i])
+               for i in range(n)]
+        yield [P[i % len(P)] + 'q%02d' % i for i in range(n)]
+    for k in (49, 50):
+        yield ['a-' * k, 'b-' * k]
+        yield ['a-' * k + 'a']
+        yield ['a-' * k + 'a', 'b.' * k + 'b']
+    for n in (99, 100, 101):
+        yield ['v%03d' % i for i in range(n)]
+        yield ['%s-%03d' % ('xy'[i % 2], i) for i in range(n)]
+
+
+def rex_structured_columns(thorough=False, name='a', fam='rexs'):
+    for vals in rex_structured_values(thorough):
+        yield {'name': name, 'fam': fam, 'v': vals}
 
 
 def columns(fam, maxrows, name='a', minrows=0):
@@ -184,9 +290,9 @@ def build_series(col):
                                    for v in vals], dtype=dtype), dtype=dtype)
     if fam == 'bool':
         return pd.Series(np.array(vals, dtype=bool), dtype=bool)
-    if fam in ('boolobj', 'strobj', 'manycat'):
+    if fam in ('boolobj', 'strobj', 'manycat', 'rexs'):
         return pd.Series(list(vals), dtype=object)
-    if fam == 'cat':
+    if fam in ('cat', 'rexscat'):
         return pd.Series(pd.Categorical(list(vals)))
     if fam == 'catx':
         return pd.Series(pd.Categorical(list(vals),
@@ -194,15 +300,15 @@ def build_series(col):
     if fam == 'dateobj':
         return pd.Series([None if v is None else parse_date(v) for v in vals],
                          dtype=object)
-    if fam.startswith('dt'):
-        unit = 'us' if fam.startswith('dttz') else fam[2:]
+    if info['kind'] == 'date':
+        unit = info.get('unit') or fam[2:]
         arr = np.array(['NaT' if v is None else v for v in vals],
                        dtype='datetime64[%s]' % unit)
         s = pd.Series(arr)
-        if fam == 'dttzutc':
+        if info.get('tz'):
             s = s.dt.tz_localize('UTC')
-        elif fam == 'dttz0530':
-            s = s.dt.tz_localize('UTC').dt.tz_convert('+05:30')
+            if info['tz'] != 'UTC':
+                s = s.dt.tz_convert(info['tz'])
         return s
     raise ValueError('unknown family %r' % fam)
 
@@ -283,7 +389,13 @@ def mutate_into(df, frame):
 
 
 def tz_offset_minutes(fam):
-    return {'dttzutc': 0, 'dttz0530': 330}.get(fam)
+    return FAMILIES[fam].get('tzmin')
+
+
+def tz_class(fam):
+    """None for naive families; '0', '+whole', '+frac', '-whole', '-frac'
+    or 'dst' (named zone with a transition) for tz-aware ones."""
+    return FAMILIES[fam].get('tzclass')
 
 
 def plain_column(col):
@@ -335,19 +447,18 @@ def snippet(desc):
     for c in desc['cols']:
         fam, v = c['fam'], c['v']
         dtype = FAMILIES[fam]['dtype']
-        if fam.startswith('dt'):
-            unit = 'us' if fam.startswith('dttz') else fam[2:]
+        if FAMILIES[fam]['kind'] == 'date' and fam != 'dateobj':
+            unit = FAMILIES[fam].get('unit') or fam[2:]
             e = ('pd.Series(np.array(%r, dtype="datetime64[%s]"))'
                  % (['NaT' if x is None else x for x in v], unit))
-            if fam == 'dttzutc':
-                e += '.dt.tz_localize("UTC")'
-            if fam == 'dttz0530':
-                e += '.dt.tz_localize("UTC").dt.tz_convert("+05:30")'
+            if FAMILIES[fam].get('tz'):
+                e += '.dt.tz_localize("UTC").dt.tz_convert(%r)' \
+                    % FAMILIES[fam]['tz']
         elif fam == 'dateobj':
             e = ('pd.Series([None if x is None else '
                  'datetime.date.fromisoformat(x) for x in %r], dtype=object)'
                  % (v,))
-        elif fam == 'cat':
+        elif fam in ('cat', 'rexscat'):
             e = 'pd.Series(pd.Categorical(%r))' % (v,)
         elif fam == 'catx':
             e = ('pd.Series(pd.Categorical(%r, categories=%r))'
